@@ -531,6 +531,11 @@ func (e *Explorer) intrinsic(it *Interp, name string, args []Value) Value {
 		return int64(len(it.sharedWrites))
 	case "vnSharedWriteSites":
 		return strings.Join(dedup(it.sharedWrites), "; ")
+	case "vnOnDivergence":
+		it.onDivSet = true
+		it.onDivLabel = args[0].(string)
+		it.onDivFinding = args[1].(string)
+		return nil
 	case "vnFeasible":
 		// is the path condition (with all assumptions so far) satisfiable?
 		r := e.s.Check()
